@@ -434,6 +434,23 @@ class ElementI(Interface):
 
 ELEMENTS = ListOf(Iface(ElementI))
 
+# Extension L8: an element of an ARGUMENT list is an `ElementSdv` of a ListSdv -- it resolves to a LIST of strings
+# (one string; the items of a referenced list spliced in: C08).  Its interface is the one of the proved contract of
+# `ListSdv.resolve` (contracts/C08b_list_flatmap.py) plus the identity token.
+from contracts.common import is_flat_concat
+from contracts.C08b_list_flatmap import (ElementSdvI as _ListElementI, ItemI as _ListItemI, TableI as SymbolsI,
+                                         resolved_piece, M as _M_C08b)
+
+
+class ArgElementI(ElementI, _ListElementI):
+    attrs = {'ident': Int, 'references': Any_}
+    methods = {'resolve': Method(returns=ListOf(Iface(_ListItemI)), pure=True)}
+
+
+ARG_ELEMENTS = ListOf(Iface(ArgElementI))
+M.assume('ElementSdv.resolve(symbols) of an argument-list element is a function of the element and the symbol table '
+         '(interface ArgElementI / C08b ElementSdvI; what the two real element classes give: C08)')
+
 
 def same(x, y):
     return x.ident == y.ident
@@ -455,7 +472,7 @@ def is_empty_seq(zs):
     return len(zs) == 0
 
 
-LIST_SDV = Inst(ListSdv, _elements=ELEMENTS)
+LIST_SDV = Inst(ListSdv, _elements=ARG_ELEMENTS)
 ARGUMENTS_SDV = Inst(ArgumentsSdv, _arguments=LIST_SDV, _validators=ELEMENTS)
 ACCUMULATED = Inst(AccumulatedComponents, stdin=ELEMENTS, arguments=ARGUMENTS_SDV, transformations=ELEMENTS)
 
@@ -562,23 +579,46 @@ class DriverSdvI(Interface):
     methods = {'resolve': Method(returns=Iface(DriverDdvI), ensures=lambda self, symbols, result: result.ident == self.ident)}
 
 
-class ListDdvI(Interface):
-    """a resolved argument list: `g_elements` (ghost) is the sequence of list elements it is the in-order
-    resolution of (ListSdv.resolve: every element resolved in place, in order -- see `list-resolution`)"""
-    target_class = ListDdv
-    attrs = {'g_elements': ELEMENTS}
+# Extension L8: `ListSdv.resolve` is used through its PROVED contract (contracts/C08b_list_flatmap.py, shared into C10:
+# the check of C10 re-proves it): the result is a real ListDdv whose `_string_elements` is the in-order concatenation
+# of what the elements resolve to.  The ghost attribute `g_elements` only RECORDS on the result which element sequence
+# it was resolved from (the witness "there is a sequence E with ddv == flat-map of E, and E is, element by element,
+# the denoted argument list"); `is_resolution_of_elements` states what the record means and is proved wherever a
+# clause speaks about `g_elements`.  (Before L8: an assumed ghost relation, checked by the stand-in `list-resolution`.)
+
+def _list_resolve_contract():
+    return [c for c in _M_C08b.contracts if c.qname.endswith(':ListSdv.resolve')][0]
+
+
+def _resolved_list(interp, list_sdv, symbols):
+    from pyvc import verify as _verify
+    d = _verify.apply_contract(interp, _list_resolve_contract(), ListSdv.__dict__['resolve'], [list_sdv, symbols], {})
+    d.__dict__['g_elements'] = list_sdv._elements
+    return d
 
 
 def _list_sdv_resolve(interp, args, kwargs):
-    """assumed contract of ListSdv.resolve(symbols): gives the resolution of ITS element sequence"""
-    self_ = args[0]
-    return new_opaque(interp, ListDdvI, 'ListSdv.resolve()', preset={'g_elements': self_._elements})
+    """ListSdv.resolve(symbols) by its proved contract; the result records ITS element sequence"""
+    return _resolved_list(interp, args[0], args[1] if len(args) > 1 else kwargs['symbols'])
 
 
 M.model(ListSdv.__dict__['resolve'], _list_sdv_resolve)
-M.trust('ListSdv.resolve(symbols) is modelled by the ghost relation "the ListDdv is the in-order resolution of the '
-        'element sequence of the ListSdv" (its three-line loop `for e in elements: out.extend(e.resolve(symbols))` '
-        'is a flat-map, checked by the bounded stand-in `list-resolution`)')
+
+
+def _share_list_resolution():
+    from contracts.common import share_contracts
+    share_contracts('C10', 'contracts.C08b_list_flatmap', lambda q: q.endswith(':ListSdv.resolve'))
+
+
+M.after_load = _share_list_resolution
+
+
+def is_resolution_of_elements(list_ddv, symbols):
+    """what the record `g_elements` of a resolved list means: the ListDdv is the in-order concatenation of what
+    each of these elements resolves to (against the given table)"""
+    return type(list_ddv) is ListDdv \
+        and is_flat_concat(list_ddv._string_elements, list_ddv.g_elements, len(list_ddv.g_elements), resolved_piece,
+                           symbols)
 
 
 def _resolved_seq(interp, xs, name):
@@ -613,7 +653,9 @@ def _any_resolve(interp, self, args, kwargs):
     drv = ga(self, 'g_driver')
     cmd._command_driver = new_opaque(interp, DriverDdvI, name + '.driver', preset={'ident': ga(drv, 'ident')})
     a = object.__new__(ArgumentsDdv)
-    a._arguments = new_opaque(interp, ListDdvI, name + '.arguments', preset={'g_elements': ga(self, 'g_args')})
+    ls = object.__new__(ListSdv)
+    ls._elements = ga(self, 'g_args')
+    a._arguments = _resolved_list(interp, ls, args[0])      # == ListSdv(g_args).resolve(symbols), by its contract
     a._validators = ()
     cmd._arguments = a
     cmd._validators = ()
@@ -627,7 +669,7 @@ def _any_resolve(interp, self, args, kwargs):
 class AnyProgramSdvI(Interface):
     """the program a symbol refers to: any ProgramSdv for which (a) and (b) hold"""
     target_class = ProgramSdv
-    attrs = {'g_driver': Iface(DriverSdvI), 'g_args': ELEMENTS, 'g_stdin': ELEMENTS, 'g_transformations': ELEMENTS,
+    attrs = {'g_driver': Iface(DriverSdvI), 'g_args': ARG_ELEMENTS, 'g_stdin': ELEMENTS, 'g_transformations': ELEMENTS,
              'references': Any_}
     methods = {'new_accumulated': Method(model=_any_new_accumulated), 'resolve': Method(model=_any_resolve)}
 
@@ -685,8 +727,14 @@ def denotes_accumulated(q, p, add, j):
         and is_concat(g_transformations(q), g_transformations(p), add.transformations, j)
 
 
+ARGS_ARE_FLAT_MAP = ('the resolved argument list is the in-order concatenation of what each of the recorded argument '
+                     'elements resolves to against the given table (lists spliced in)')
+
+
 def resolves(d, driver, args, stdin, transformations, j):
-    """the ProgramDdv d is the element-wise, in-order resolution of (driver, args, stdin, transformations)"""
+    """the ProgramDdv d is the element-wise, in-order resolution of (driver, args, stdin, transformations);
+    the argument list: the flat-map (clause `is_resolution_of_elements`) of a sequence of elements that is, element
+    by element, `args`"""
     return type(d) is ProgramDdv and type(d._command) is CommandDdv and type(d._command._arguments) is ArgumentsDdv \
         and d._command._command_driver.ident == driver.ident \
         and is_same_seq(d._command._arguments._arguments.g_elements, args, j) \
@@ -705,10 +753,12 @@ M.contract(P_PFC + ':ProgramSdvForCommand.new_accumulated', inline=True,
            raises_only=())
 
 M.contract(P_PFC + ':ProgramSdvForCommand.resolve', inline=True,
-           params=dict(self=PROGRAM_FOR_COMMAND, symbols=Any_), ghosts=dict(j=Int),
+           params=dict(self=PROGRAM_FOR_COMMAND, symbols=Iface(SymbolsI)), ghosts=dict(j=Int),
            ensures={'(b) the in-order resolution of: driver, command arguments ++ accumulated arguments, stdin, '
                     'transformations': lambda self, result, j:
-           resolves(result, g_driver(self), g_args(self), g_stdin(self), g_transformations(self), j)},
+           resolves(result, g_driver(self), g_args(self), g_stdin(self), g_transformations(self), j),
+                    ARGS_ARE_FLAT_MAP: lambda symbols, result:
+                    is_resolution_of_elements(result._command._arguments._arguments, symbols)},
            raises_only=())
 
 M.contract(P_PFS + ':ProgramSdvForSymbolReference.new_accumulated', inline=True,
@@ -725,7 +775,7 @@ def concat2(xs, ys):
 
 
 M.contract(P_PFS + ':ProgramSdvForSymbolReference.resolve',
-           params=dict(self=PROGRAM_FOR_SYMBOL, symbols=Any_), ghosts=dict(j=Int),
+           params=dict(self=PROGRAM_FOR_SYMBOL, symbols=Iface(SymbolsI)), ghosts=dict(j=Int),
            returns=Any_,
            ensures={
                'the symbol that is looked up is the referenced one': lambda self, trace:
@@ -737,6 +787,8 @@ M.contract(P_PFS + ':ProgramSdvForSymbolReference.resolve',
                             concat2(referenced(trace).g_stdin, self._accumulated_components.stdin),
                             concat2(referenced(trace).g_transformations, self._accumulated_components.transformations),
                             j),
+               ARGS_ARE_FLAT_MAP: lambda symbols, result:
+               is_resolution_of_elements(result._command._arguments._arguments, symbols),
            }, raises_only=())
 
 M.contract(P_PFS + ':plain', inline=True,
@@ -753,7 +805,10 @@ M.contract(P_PFS + ':plain', inline=True,
 
 @M.bounded('list-resolution')
 def _list_resolution(ctx):
-    """ListSdv.resolve (a loop that extends a list by each element's resolution) is executed natively on EVERY
+    """(Extension L8: ListSdv.resolve is now PROVED to be this flat-map for element sequences of any length --
+    contracts/C08b_list_flatmap.py, shared into C10 and used at its call sites; this stand-in is kept as a native
+    cross-check with the real element classes and for list_sdvs.concat.)
+    ListSdv.resolve (a loop that extends a list by each element's resolution) is executed natively on EVERY
     element sequence up to length 3 over 9 kinds of elements (constants: empty / with spaces / with quotes;
     references to a string, a path, lists of length 0, 1, 2, a list containing a reference) and compared with the
     independent definition  `flatten([strings denoted by e] for e in elements)`; and list_sdvs.concat is checked
